@@ -250,6 +250,24 @@ fn checking_calls(pl: &Plan, prefix: &str) -> Vec<(String, Arg, Option<Arg>, Vec
             c["relabs"] = json!("t");
             v.push(("readlink".to_string(), a.clone(), Some(b), vec![], 0, c));
         }
+        // the right components under a spelling that is not the link's text ("./x", "x/", "x//y"): the reading of a link is a text
+        for q in pl.p2.iter().take(3) {
+            let r = rel(&parent, &q.comps);
+            if r.is_empty() {
+                continue;
+            }
+            for raw in [format!("./{}", r.join("/")), format!("{}/", r.join("/")), r.join("//")] {
+                if raw == r.join("/") {
+                    continue;
+                }
+                let b = Arg { raw, res: None, comps: r.clone(), canon: false };
+                let mut c = mcall("readlink", prefix, a, Some(&b), &[], 0);
+                c["bok"] = json!("r");
+                c["bc"] = json!(r);
+                c["relabs"] = json!("u");
+                v.push(("readlink".to_string(), a.clone(), Some(b), vec![], 0, c));
+            }
+        }
         for q in &pl.p2 {
             v.push(("readlink_abs".to_string(), a.clone(), Some(q.clone()), vec![], 0, mcall("readlink_abs", prefix, a, Some(q), &[], 0)));
         }
